@@ -33,3 +33,37 @@ Proof.
   - reflexivity.
   - reflexivity.
 Qed.
+
+(* ---------- equilibrium() / minimize(): default, lower-casing and the choice of the algorithm family ---------- *)
+From XV Require Import Gen.PyDispatchRF.
+
+Lemma obj_in_tbl t m : obj_in_dict (tbl_obj t) (meth_obj m) = in_table m t.
+Proof.
+  destruct m as [|s|i|]; cbn [meth_obj obj_in_dict in_table]; try reflexivity.
+  unfold d_mem, tmem. rewrite d_find_tbl. destruct (tlookup s t); reflexivity.
+Qed.
+
+Theorem equilibrium_method_prelude_refines t m :
+  let m' := lower_meth (with_default "broyden1"%string m) in
+  equilibrium_method_prelude (meth_obj m) (tbl_obj t) =
+  Ok (meth_obj m', if in_table m' t then "equilibrium"%string else "rootfinder"%string).
+Proof.
+  cbn zeta. unfold equilibrium_method_prelude, equil_default_method, rf_default_method.
+  destruct m as [|s|i|]; cbn [meth_obj is_none is_str with_default lower_meth bind obj_str].
+  - change (OStr (str_lower "broyden1")) with (meth_obj (MStr "broyden1")). rewrite obj_in_tbl. reflexivity.
+  - rewrite str_lower_eq. change (OStr (lower s)) with (meth_obj (MStr (lower s))). rewrite obj_in_tbl. reflexivity.
+  - reflexivity.
+  - reflexivity.
+Qed.
+
+Theorem minimize_method_prelude_refines t fo m :
+  let m' := lower_meth (with_default "broyden1"%string m) in
+  minimize_method_prelude (meth_obj m) fo (tbl_obj t) = Ok (meth_obj m', negb (in_table m' t)).
+Proof.
+  cbn zeta. unfold minimize_method_prelude, min_default_method.
+  destruct m as [|s|i|]; cbn [meth_obj is_none bind]; unfold d_get; rewrite d_find_d_set_same; cbn [bind is_str obj_str with_default lower_meth].
+  - change (OStr (str_lower "broyden1")) with (meth_obj (MStr "broyden1")). rewrite obj_in_tbl. reflexivity.
+  - rewrite str_lower_eq. change (OStr (lower s)) with (meth_obj (MStr (lower s))). rewrite obj_in_tbl. reflexivity.
+  - reflexivity.
+  - reflexivity.
+Qed.
